@@ -19,7 +19,8 @@ SPEC = {
              "facade instances sharing the shared cache and the persistent tier (per-node local cache and key lock), all "
              "interleavings; route also drives SetNX, SetList, SetHash/GetHash/DeleteHash and uses the key constants of "
              "internal/constants and internal/cloud/repos (incl. the lock: keys of StorageBasedLock); values returned by reads are "
-             "held and looked at again after the run (aliasing probe).  The observation (per-call first/last step and result, final "
+             "held and looked at again after the run (aliasing probe); list-readers-json: GetList readers beside append/remove over "
+             "tiers that answer the list as a JSON string, all interleavings.  The observation (per-call first/last step and result, final "
              "tier contents, a final sequential Get, the full tier-call trace with values and TTLs) is compared literally with "
              "the model and judged by `holds`; non-trivial = at least two calls or a fault; distinct = distinct realized case lines"),
     "trusted_base": [
